@@ -18,7 +18,6 @@ NEEDS = {
     "C08-h": "recluster_inplace(shuffle=True) now re-inserts all leaf clusters as one list in the shuffled order instead of in per-dtype groups, and _fit_buffers casts a whole list to the dtype of its first buffer. It only shows when the tree holds a cluster of >= 256 members (uint16 counters) and the shuffle happens to put such a cluster first: every smaller cluster that is not merged afterwards is then stored with uint16 (or wider) counters, e.g. 1-member entries in uint16 (if a narrower buffer comes first the call raises instead; without shuffle, or with all clusters < 256 members, behaviour is unchanged).",
     "C18-h": "Two sites: BitBirch.get_centroids(sort=True) now orders clusters of equal size by their first molecule index, and the sklearn wrapper's fit builds subcluster_centers_ from get_centroids() instead of _get_leaf_bfs(sort=True); labels_ / get_assignments still rank tied clusters in leaf-traversal order, so transform columns and predict labels point at a different cluster than labels_ does. It only shows when at least two clusters have the same size AND the tree has split at least once (more clusters than branching_factor, default 50), because inside one unsplit leaf traversal order already equals first-molecule order (30 tied clusters: no difference).",
     "C04-h": "_ArrayMemPagesManager.from_bb_input was 'converted to bytes' for files with items wider than one byte (row size and release period now use itemsize), but np.memmap.offset, which is already in bytes, is multiplied by the itemsize too, so the start address of the released blocks lies offset*(itemsize-1) bytes BEFORE the mapped file (and is no longer page aligned). It is only visible when fitting from a .npy PATH holding a multi-byte integer dtype (unpacked int16/uint32/int64 ...) with more than 2 MiB of rows, so that a page release actually happens; uint8 files (all tests, all packed input) behave exactly as before and clusters are unchanged.",
-    "C16-h": "_get_fps_file_shape_and_dtype (used by `bb fps-info` and the file-sequence indexer) now gets shape/dtype from np.load(path, mmap_mode='r') instead of parsing the .npy header; this is identical for every numeric file (valid, wrong-ndim, float, empty), but NumPy refuses to memory-map arrays with Python objects in the dtype, so `bb fps-info` crashes (exit 1, nothing flagged, remaining files not described) only when a described file/directory contains a well-formed object-dtype *.npy (e.g. SMILES strings saved next to the fingerprints); a truncated data section makes it fail as well.",
     "C12-h": "_py_similarity: the uint64-word reinterpretation that _popcount used on the (always fresh, contiguous) AND result was factored into _as_words() and is now also applied independently to each operand of the AND in _jt_sim_packed_precalc_cardinalities; when exactly one operand can be viewed as words (packed width a multiple of 8 bytes, and one of the two is not contiguous along its last axis: Fortran-ordered or column-strided row matrix vs. contiguous query, or contiguous matrix vs. strided query vector) the two fall out of step: for 8-byte (64-bit) fingerprints the uint8 and uint64 operands broadcast silently and jt_sim_packed returns wrong similarities (even > 1), for wider multiples of 8 bytes it raises a broadcast ValueError. C-contiguous inputs, widths not a multiple of 8 bytes, and a non-contiguous matrix paired with its own (equally strided) rows, as in jt_sim_matrix_packed, are unaffected.",
     "C07-h": "DiameterMerge no longer computes the iSIM and compares it with the threshold; a new helper _jt_isim_reaches tests numerator >= threshold * denominator to 'skip the division'. The two forms only disagree through floating-point rounding when the would-be cluster's iSIM is exactly equal to a threshold whose double is slightly above the decimal (e.g. threshold=0.55 with numerator/denominator 55/100, 99/180, 110/200: 0.55*100 == 55.00000000000001), so a merge that the reference and the legacy uint8/int64 code accept is refused; no effect for 0.65 and the other common thresholds or for non-boundary iSIM values.",
     "C02-g": "bblean/fingerprints.py:_get_fingerprints_from_file_seq now materialises its `files` argument with `files = sorted(files)` (it is iterated twice, so a list is needed; sorting 'normalises' the order the comment says is assumed), while member labels are still assigned in the order the caller fitted / passed the files. It only shows when the largest cluster is split from a LIST of fingerprint files (BitBirch.refine_inplace([paths]), `bb run` refinement, or multiround with split_largest_after_each_midsection_round / refinement via all_fp_paths) AND the caller's file order is not the lexicographic order of the names (e.g. fps-0.npy..fps-11.npy in numeric order, no zero padding): the split singletons then carry the right labels but rows of other files, so counts stay right (all internal checks pass) while stored sums and centroids no longer match the members.",
